@@ -428,6 +428,7 @@ def correspondence(ctx):
     unit = unit_cases(ctx.rng, ctx.n(4000, 40000))
 
     dis, branches, nontriv, evals, skipped = [], {}, 0, 0, 0
+    distinct = set()
     opcount = {}
     all_lines, spans, impl_all = [], [], []
     kept_kinds = []
@@ -449,7 +450,8 @@ def correspondence(ctx):
                                                (r.split(" ")[1] if r.startswith("e ") else "set-" + r.split(" ")[2]))
             branches[key] = branches.get(key, 0) + 1
         if nontrivial(kinds):
-            nontriv += 1
+            distinct.add(json.dumps([list(o) for o in ops]))
+            nontriv = len(distinct)
         for k, _ in kinds:
             opcount[k] = opcount.get(k, 0) + 1
         i = find_first_diff(lines, impl, model)
